@@ -87,6 +87,29 @@ class IdleClassic(IdleLe):
     transport = 'classic'
 
 
+class LastWordsLe(IdleLe):
+    """Applications whose 'disconnection' listener still sends something on the connection that is going away (a goodbye,
+    a last notification): whatever becomes of that PDU, it may not stay behind in the host's queue."""
+
+    name = 'last_words_le'
+
+    async def prepare(self, env):
+        await super().prepare(env)
+        for dev, conn in ((env.local, env.conn), (env.peer, env.peer_conn)):
+            def bye(*a, dev=dev, conn=conn):
+                try:
+                    dev.send_l2cap_pdu(conn.handle, IDLE_CID, b'bye')
+                except Exception:  # noqa: being refused is fine
+                    pass
+
+            conn.on('disconnection', bye)
+
+
+class LastWordsClassic(LastWordsLe):
+    name = 'last_words_classic'
+    transport = 'classic'
+
+
 # ---------------------------------------------------------------------------
 # GATT
 # ---------------------------------------------------------------------------
@@ -662,7 +685,7 @@ class ClassicDisconnect(Proc):
 
 
 PROC_CLASSES = [
-    IdleLe, IdleClassic,
+    IdleLe, IdleClassic, LastWordsLe, LastWordsClassic,
     GattRead, GattLongRead, GattWrite, GattDiscover, GattSubscribe, GattIndicate,
     GattSubscribeServerCentral, GattCccdWriteCommandServerCentral, Queued1, Queued2, Queued4,
     PairLegacyJW, PairScJW, PairScPasskey,
